@@ -1500,13 +1500,13 @@ Proof. unfold a_set; cbn [a_lists]. apply length_map_nth. Qed.
 Lemma pushback_loop_sim l o r : forall todo s a pre suf ep,
   Rep s a -> nth_error (a_lists a) l = Some (r, Some (a_seq a l)) ->
   a_seq a o = pre ++ todo ++ suf -> (todo <> [] -> ep = head todo) ->
-  exists s', pushbacklist_loop (length todo) l ep s = Ok s' /\
+  exists s', pushbacklist_loop (length todo) l ep s = (s', None) /\
              Rep s' (a_set (a_alloc_copies a todo) l (a_seq a l ++ copies a todo)).
 Proof.
   induction todo as [|y t IH]; intros s a pre suf ep R H Eo Hep.
   - exists s. split; [reflexivity|]. rewrite a_alloc_copies_nil. unfold copies. simpl. rewrite app_nil_r.
     rewrite (a_set_same _ _ _ _ H). exact R.
-  - rewrite (Hep ltac:(discriminate)). cbn [head length pushbacklist_loop].
+  - rewrite (Hep ltac:(discriminate)). cbn [head length pushbacklist_loop]. unfold pushbacklist_body.
     assert (Iy : In y (a_seq a o)) by (rewrite Eo; apply in_or_app; simpl; auto).
     assert (Hy : y < size s) by (eapply a_seq_owned_lt; eauto).
     destruct (Rep_list _ _ _ _ _ R H) as (Hl & Hr & _).
@@ -1551,7 +1551,7 @@ Lemma PushBackList_sim s a l o r ol :
   exists s', list_PushBackList l o s = Ok s' /\
              Rep s' (a_set (a_alloc_copies a (a_seq a o)) l (a_seq a l ++ copies a (a_seq a o))).
 Proof.
-  intros R H Ho. unfold list_PushBackList.
+  intros R H Ho. unfold list_PushBackList, pushbacklist_run.
   destruct (lazyInit_sim _ _ _ _ _ R H) as (s1 & E1 & R1). rewrite E1. cbn [bind].
   set (a1 := a_set a l (a_seq a l)) in *.
   assert (Ll : l < length (a_lists a)) by (apply nth_error_Some; congruence).
@@ -1565,7 +1565,7 @@ Proof.
   destruct (pushback_loop_sim l o r (a_seq a1 o) s1 a1 [] [] (head (a_seq a1 o)) R1 H1) as (s' & E' & R').
   - simpl. rewrite app_nil_r. reflexivity.
   - auto.
-  - exists s'. split; auto. rewrite !Sq in R'. unfold a1 in R'.
+  - exists s'. split; [rewrite E'; reflexivity|]. rewrite !Sq in R'. unfold a1 in R'.
     rewrite a_set_alloc_copies_a_set in R'. exact R'.
 Qed.
 
@@ -1601,14 +1601,14 @@ Qed.
 Lemma pushfront_loop_sim l o r : forall todo s a pre suf ep,
   Rep s a -> nth_error (a_lists a) l = Some (r, Some (a_seq a l)) ->
   a_seq a o = pre ++ todo ++ suf -> (todo <> [] -> ep = last_opt todo) ->
-  exists s', pushfrontlist_loop (length todo) l ep s = Ok s' /\
+  exists s', pushfrontlist_loop (length todo) l ep s = (s', None) /\
              Rep s' (a_set (a_alloc_copies a (rev todo)) l (rev (copies a todo) ++ a_seq a l)).
 Proof.
   induction todo as [|y t IH] using rev_ind; intros s a pre suf ep R H Eo Hep.
   - exists s. split; [reflexivity|]. simpl rev. rewrite a_alloc_copies_nil. unfold copies. simpl.
     rewrite (a_set_same _ _ _ _ H). exact R.
   - rewrite (Hep ltac:(destruct t; discriminate)), last_opt_snoc.
-    rewrite app_length. simpl length. rewrite Nat.add_1_r. cbn [pushfrontlist_loop].
+    rewrite app_length. simpl length. rewrite Nat.add_1_r. cbn [pushfrontlist_loop]. unfold pushfrontlist_body.
     assert (Iy : In y (a_seq a o)).
     { rewrite Eo. apply in_or_app. right. apply in_or_app. left. apply in_or_app. simpl; auto. }
     assert (Hy : y < size s) by (eapply a_seq_owned_lt; eauto).
@@ -1647,7 +1647,7 @@ Lemma PushFrontList_sim s a l o r ol :
   exists s', list_PushFrontList l o s = Ok s' /\
              Rep s' (a_set (a_alloc_copies a (rev (a_seq a o))) l (rev (copies a (a_seq a o)) ++ a_seq a l)).
 Proof.
-  intros R H Ho. unfold list_PushFrontList.
+  intros R H Ho. unfold list_PushFrontList, pushfrontlist_run.
   destruct (lazyInit_sim _ _ _ _ _ R H) as (s1 & E1 & R1). rewrite E1. cbn [bind].
   set (a1 := a_set a l (a_seq a l)) in *.
   assert (Ll : l < length (a_lists a)) by (apply nth_error_Some; congruence).
@@ -1661,7 +1661,7 @@ Proof.
   destruct (pushfront_loop_sim l o r (a_seq a1 o) s1 a1 [] [] (last_opt (a_seq a1 o)) R1 H1) as (s' & E' & R').
   - simpl. rewrite app_nil_r. reflexivity.
   - auto.
-  - exists s'. split; auto. rewrite !Sq in R'. unfold a1 in R'.
+  - exists s'. split; [rewrite E'; reflexivity|]. rewrite !Sq in R'. unfold a1 in R'.
     rewrite a_set_alloc_copies_a_set in R'. exact R'.
 Qed.
 
